@@ -338,6 +338,7 @@ def run(ctx):
     ctx.log("%d fault scenarios run through the whole program under the controlled scheduler; validating traces against Dsh/Sys.v" % len(runs))
     acc = ctx.run_lines([model], cases, env={"OCAMLRUNPARAM": "l=4G"}, crash_tag="MODEL-CRASH")
     bad, nacc, samples = 0, 0, []
+    nsched = nrej = 0
     dist = {"ok": 0, "refuse": 0, "hang-in-connect": 0, "hang-mid-command": 0, "maximal_progress_runs": 0, "kills": 0}
     for (ru, n, f, tconn, tcmd, behs, hosts, mp), res, case in zip(runs, acc, cases):
         for b in behs:
@@ -349,18 +350,22 @@ def run(ctx):
                "ptick": 0 if mp else 8, "schedule": [c for c in ru.choices if c != "sig"]}
         if e:
             bad += 1
-            ctx.violation("schedule", case=rec, expected="property holds for every fault assignment and schedule", observed=ru.summary(), engine="sched",
+            nsched += 1
+            if nsched <= 5:
+              ctx.violation("schedule", case=rec, expected="property holds for every fault assignment and schedule", observed=ru.summary(), engine="sched",
                           detail=e + "; trace tail: " + " | ".join(ru.lines[-14:]))
         elif not res.startswith("ACCEPT"):
             bad += 1
-            ctx.violation("no-failing-input-found", case=rec, expected="trace accepted by Dsh/Sys.v", observed=res, engine="sched",
+            nrej += 1
+            if nrej <= 3:
+              ctx.violation("no-failing-input-found", case=rec, expected="trace accepted by Dsh/Sys.v", observed=res, engine="sched",
                           correspondence="sched: event trace of the real program is a run of the timed transition system", detail=res + " ; events: " + case[:1500])
         else:
             nacc += 1
         if len(samples) < 3 and ("h" in behs or "H" in behs) and n >= 3:
             samples.append({"n": n, "fanout": f, "connect_timeout": tconn, "command_timeout": tcmd, "behaviours": [BEH[b] for b in behs],
                             "events": " ".join(ru.sys_events())[:500], "exit": ru.exit})
-        if bad >= 5:
+        if nsched >= 5:
             break
     nreal, rprob = real_part(ctx, quick)
     for case, exp, obs, text in rprob[:3]:
